@@ -639,8 +639,14 @@ theorem strToManExp_of_shape {l : List Char} (hus : underscoresOK '\x00' l = tru
     unfold floatOK
     rw [hascii, stripL_eq_self_of_forall hnsp]
     simp only [hus', hfil, plainFloatOK_litL h, Bool.and_self]
+  have hnsp' : ∀ c ∈ l.map lowerC, isSpaceStrip c = false := by
+    intro c hc
+    rcases hchars c hc with rfl | hl
+    · decide
+    · exact hl.not_spaceStrip
   unfold strToManExp
-  simp only [rstripL_eq_self_of_forall hnl, hfloat, Bool.not_true, Bool.false_eq_true, if_false, hfil]
+  simp only [rstripL_eq_self_of_forall hnl, stripL_eq_self_of_forall hnsp', hfloat, Bool.not_true, Bool.false_eq_true,
+    if_false, hfil]
   exact strToManExpCore_litL h
 
 
